@@ -101,6 +101,9 @@ type Gen struct {
 	seqElem      map[string]types.Type // element Go type of ghost sequences, by sort
 	rngPred      map[string]bool       // struct range predicates already defined (false: trivially true)
 	cellAllocs   map[*ssa.Alloc]bool   // local struct allocations held as values (address never escapes)
+	cellMods     map[string]map[int]bool // per struct cell: top-level fields written in the loop being analysed (-1: whole)
+	cellT        map[string]types.Type   // Go type held by a cell
+	cellPaths    map[string][][]pathStep // per struct cell: full field paths written in the loop being analysed
 	lookupPos    token.Pos // source position contract names are resolved at (scoping)
 }
 
